@@ -106,6 +106,7 @@ type gRun struct {
 	created  map[string]bool
 	order    []int // GetMetas order as row indices
 	boot     []int
+	retries  []string // "<row>:<ok>" per post-start lookup of a fail-once component
 	slotInfo map[string][3]string // "row.slot" → kind,target,tagkind+tag
 	appRow   int
 	nodesObj []node
@@ -246,6 +247,22 @@ func runGraph(sc *gScen) *gRun {
 	}
 	res.created = tr.created
 	res.nested = append([]string{}, tr.nested...)
+	if res.status == "ok" && sc.retry() {
+		// the lazy components whose first creation is made to fail: look them up until they are created (at most 3 times)
+		for i, gn := range sc.nodes {
+			if gn.flt&fltInitOnce == 0 || tr.created[names[i]] {
+				continue
+			}
+			for attempt := 0; attempt < 3 && !tr.created[names[i]]; attempt++ {
+				var err error
+				if pan := hx.Guard(func() { _, err = a.GetComponentByName(names[i]) }); pan != nil {
+					res.status, res.errText = "panic", fmt.Sprint(pan)
+					break
+				}
+				res.retries = append(res.retries, fmt.Sprintf("%d:%v", i, err == nil))
+			}
+		}
+	}
 	// rows with reflection facts
 	tyIds := map[reflect.Type]int{}
 	tyOf := func(t reflect.Type) int {
@@ -776,6 +793,15 @@ func (r *gRun) oracles() []string {
 			}
 		}
 	}
+	// C04: the first lookup of a component whose Init fails the first time must not hand out the half-built instance
+	seen := map[string]bool{}
+	for _, t := range r.retries {
+		row, ok, _ := strings.Cut(t, ":")
+		if !seen[row] && ok == "true" {
+			add("c04-retry-half-built", "the first lookup of node %s returned no error although its Init failed: the half-built instance was handed out as if created", row)
+		}
+		seen[row] = true
+	}
 	if r.status != "ok" && !r.sc.reentrant() && r.plainlyResolvable() {
 		add("c02-resolvable-fails", "start-up ended with %s although every point names an existing, different component, nothing is substituted and no fault is injected: %.160s", r.status, strings.ReplaceAll(r.errText, "\n", " "))
 	}
@@ -1086,6 +1112,7 @@ func parseGraphScenario(line string) (*gScen, error) {
 
 func graphReplay(scn string, w *hx.Writer) {
 	scn = strings.TrimPrefix(scn, "#reentrant ")
+	scn = strings.TrimPrefix(scn, "#retry ")
 	sc, err := parseGraphScenario(scn)
 	if err != nil {
 		return
@@ -1202,9 +1229,22 @@ func emitGraph(sc *gScen, tags []string, w *hx.Writer) *gRun {
 	scn := r.scenarioLine()
 	if sc.reentrant() {
 		scn = "#reentrant " + scn // callbacks that re-enter the factory are outside the machine model: oracle-only
+	} else if sc.retry() {
+		scn = "#retry " + scn
 	}
 	w.Put(hx.Case{Scn: scn, Obs: r.observation(), Oracle: joinFails(r.oracles()), Tags: append(tags, r.labels()...)})
 	return r
+}
+
+// retry: a lazy component's first creation fails (Init fails once); after the start it is looked up again until it is
+// created. Second attempts are outside the machine model (one start): oracle-only.
+func (sc *gScen) retry() bool {
+	for _, n := range sc.nodes {
+		if n.flt&fltInitOnce != 0 {
+			return true
+		}
+	}
+	return false
 }
 
 func (sc *gScen) reentrant() bool {
